@@ -9,65 +9,65 @@ package extractor
 
 //@ func HTMLAssets
 //@   property C10
-//@   sweep idx slice div
+//@   sweep idx slice div assert
 //@   opaque
 //@   modifies models.URL::*!Hops!Redirects, models.Item::base
 //@ func HTMLOutlinks
 //@   property C10
-//@   sweep idx slice div
+//@   sweep idx slice div assert
 //@   opaque
 //@   modifies models.URL::*!Hops!Redirects, models.Item::base
 //@   ensures [fresh-urls] freshslice(result0) && forall(j, 0, len(result0), result0[j] == nil || fresh(result0[j])) // assumed: the extractor builds a new list of new URL objects, it never hands back the page's own URL object
 //@ func PDF
 //@   property C10
-//@   sweep idx slice div
+//@   sweep idx slice div assert
 //@   opaque
 //@   modifies models.URL::*!Hops!Redirects
 //@   ensures [fresh-urls] freshslice(result0) && forall(j, 0, len(result0), result0[j] == nil || fresh(result0[j])) // assumed: the extractor builds a new list of new URL objects, it never hands back the page's own URL object
 //@ func ExtractURLsFromHeader
 //@   property C10
-//@   sweep idx slice div
+//@   sweep idx slice div assert
 //@   opaque
 //@   modifies nothing
 //@   ensures [fresh-urls] freshslice(result0) && forall(j, 0, len(result0), result0[j] == nil || fresh(result0[j])) // assumed: the extractor builds a new list of new URL objects, it never hands back the page's own URL object
 //@ func IsSitemapXML
 //@   property C10
-//@   sweep idx slice div
+//@   sweep idx slice div assert
 //@   opaque
 //@   modifies models.URL::*!Hops!Redirects
 //@ func IsHTML
 //@   property C10
-//@   sweep idx slice div
+//@   sweep idx slice div assert
 //@   opaque
 //@   modifies nothing
 //@ func IsPDF
 //@   property C10
-//@   sweep idx slice div
+//@   sweep idx slice div assert
 //@   opaque
 //@   modifies nothing
 //@ func IsS3
 //@   property C10
-//@   sweep idx slice div
+//@   sweep idx slice div assert
 //@   opaque
 //@   modifies nothing
 //@ func IsM3U8
 //@   property C10
-//@   sweep idx slice div
+//@   sweep idx slice div assert
 //@   opaque
 //@   modifies nothing
 //@ func IsJSON
 //@   property C10
-//@   sweep idx slice div
+//@   sweep idx slice div assert
 //@   opaque
 //@   modifies nothing
 //@ func IsXML
 //@   property C10
-//@   sweep idx slice div
+//@   sweep idx slice div assert
 //@   opaque
 //@   modifies nothing
 //@ func S3
 //@   property C10
-//@   sweep idx slice div
+//@   sweep idx slice div assert
 //@   opaque
 //@   modifies models.URL::*!Hops!Redirects
 //@   ensures [fresh-urls] freshslice(result0) && forall(j, 0, len(result0), result0[j] == nil || fresh(result0[j])) // assumed: the extractor builds a new list of new URL objects, it never hands back the page's own URL object
